@@ -4,7 +4,7 @@
               refines r d = both raise the same class of exception, or r is a sparse vector with Rv r d
               okrel R x y = whenever y (NumPy) returns a value, x (sparse) returns a related value
               run false = the history semantics of the repaired source (pending_fixes/C09_1 .. C09_7) *)
-From V Require Import Common.NumFacts C09.Model C09.Dense C09.Proofs.
+From V Require Import Common.NumFacts C09.Model C09.Dense C09.Proofs C09.ProofsDeep.
 
 (* ---------- representation invariant ---------- *)
 (* construction establishes it and represents the input *)
@@ -457,4 +457,189 @@ Proof.
   vm_compute fst.
   eapply frun_cons. { eapply F_copylike; [vm_compute; reflexivity | vm_compute; reflexivity | reflexivity]. }
   apply frun_nil.
+Qed.
+
+(* ====================================================================== deepening round (coq/C09/ProofsDeep.v) *)
+(* ---------- SparseArray reductions over the whole array (axis=None), with and without keepdims ---------- *)
+Theorem C09_red_axis_none_refines : forall r rows m keep, Forall2 Rv rows m -> rows <> [] -> Forall (fun c => c <> []) rows ->
+  exists v, np_red_all r m = Ok v /\ out_matches (red_arrF false r rows None keep) v keep.
+Proof. exact red_axis_none_refines. Qed.
+Print Assumptions C09_red_axis_none_refines.
+Example C09_ex_red_axis_none :
+  Forall2 Rv [of_dense [1; 0]; of_dense [0; -2]] [[1; 0]; [0; -2]] /\ [of_dense [1; 0]; of_dense [0; -2]] <> [] /\
+  Forall (fun c => c <> []) [of_dense [1; 0]; of_dense [0; -2]].
+Proof.
+  split; [constructor; [apply Rv_of_dense|constructor; [apply Rv_of_dense|constructor]]|].
+  split; [discriminate|repeat constructor; discriminate].
+Qed.
+
+(* ---------- SparseArray.__setitem__ with 1-d and 2-d values ---------- *)
+(* one row: row[n] = values, n a list, mask, slice or [:] *)
+Theorem C09_row_set_values_refines : forall c v n l isb, Rv c v -> valid_index (length c) n -> nonint n ->
+  length l = length (index_list (length c) n) ->
+  exists r r', vecF_set c n (PArr l isb) = Ok r /\ np_setrow_vals v n l = Ok r' /\ Rv r r' /\ length r = length c /\
+               forall j, ~ In j (index_list (length c) n) -> nth_error r j = nth_error c j.
+Proof. exact vecF_set_values_refines. Qed.
+Print Assumptions C09_row_set_values_refines.
+Example C09_ex_row_set_values :
+  Rv (of_dense [1; 0; 2]) [1; 0; 2] /\ valid_index (length (of_dense [1; 0; 2])) (IMask [true; false; true]) /\
+  nonint (IMask [true; false; true]) /\ length [5; 6] = length (index_list (length (of_dense [1; 0; 2])) (IMask [true; false; true])).
+Proof. split; [apply Rv_of_dense|repeat split]. Qed.
+(* a[m, n] = 1-d values: every selected row gets the values at the selected columns; other rows untouched *)
+Theorem C09_array_set_values_refines : forall rows M m n l isb w, Forall2 Rv rows M ->
+  is_int n = false -> is_int m || is_slice m || is_slice n = true ->
+  valid_index (length rows) m -> Forall (fun c => length c = w) rows -> valid_index w n ->
+  length l = length (index_list w n) ->
+  exists R R', arrF_set false rows false (XPair m n) (PArr l isb) = (R, None) /\ np_set2_values M m n l = Ok R' /\
+               Forall2 Rv R R' /\ length R = length rows /\
+               forall k, ~ In k (index_list (length rows) m) -> nth_error R k = nth_error rows k.
+Proof. exact array_set_values_refines. Qed.
+Print Assumptions C09_array_set_values_refines.
+(* a[m, n] = 2-d values: the k-th selected row gets the k-th row of values *)
+Theorem C09_array_set_block_refines : forall rows M m n V isb w, Forall2 Rv rows M ->
+  block_form m n = true -> valid_index (length rows) m -> Forall (fun c => length c = w) rows -> valid_index w n ->
+  nonint n -> Forall (fun x => length x = length (index_list w n) /\ (2 <= length x)%nat) V ->
+  length V = length (index_list (length rows) m) ->
+  exists R R', arrF_set false rows false (XPair m n) (PArr2 V isb) = (R, None) /\ np_set2_block M m n V = Ok R' /\
+               Forall2 Rv R R' /\ length R = length rows /\
+               forall k, ~ In k (index_list (length rows) m) -> nth_error R k = nth_error rows k.
+Proof. exact array_set_block_refines. Qed.
+Print Assumptions C09_array_set_block_refines.
+(* a[m] = scalar / 1-d values (non-tuple index) is a[m, :] = ... *)
+Theorem C09_array_set_row_refines : forall rows M m q l isb w, Forall2 Rv rows M -> valid_index (length rows) m ->
+  (exists R R', arrF_set false rows false (XRow m) (PS q isb) = (R, None) /\ np_set2_scalar M m IOpen q = Ok R' /\
+                Forall2 Rv R R' /\ length R = length rows /\
+                forall k, ~ In k (index_list (length rows) m) -> nth_error R k = nth_error rows k) /\
+  (match m with IMask _ => False | _ => True end -> Forall (fun c => length c = w) rows -> length l = w ->
+   exists R R', arrF_set false rows false (XRow m) (PArr l isb) = (R, None) /\ np_set2_values M m IOpen l = Ok R' /\
+                Forall2 Rv R R' /\ length R = length rows /\
+                forall k, ~ In k (index_list (length rows) m) -> nth_error R k = nth_error rows k).
+Proof.
+  intros. split; [now apply array_set_row_scalar_refines | intros; eapply array_set_row_values_refines; eauto].
+Qed.
+Print Assumptions C09_array_set_row_refines.
+Example C09_ex_array_set_row :
+  let rows := [of_dense [1; 0; 2]; of_dense [0; 0; 3]] in
+  valid_index (length rows) (IList [1; 0]%nat) /\ Forall (fun c => length c = 3%nat) rows /\ length [7; 8; 9] = 3%nat /\
+  arrF_set false rows false (XRow (IList [1; 0]%nat)) (PArr [7; 8; 9] false) = ([of_dense [7; 8; 9]; of_dense [7; 8; 9]], None).
+Proof. cbn zeta. split; [repeat constructor|]. split; [repeat constructor|]. split; [reflexivity|]. vm_compute. reflexivity. Qed.
+Example C09_ex_array_set_values :
+  let rows := [of_dense [1; 0; 2]; of_dense [0; 0; 3]] in
+  Forall2 Rv rows [[1; 0; 2]; [0; 0; 3]] /\ valid_index (length rows) (ISlice 0 2 1) /\ Forall (fun c => length c = 3%nat) rows /\
+  valid_index 3 (IList [0; 2]%nat) /\ block_form (ISlice 0 2 1) (IList [0; 2]%nat) = true /\
+  length [5; 6] = length (index_list 3 (IList [0; 2]%nat)) /\
+  arrF_set false rows false (XPair (ISlice 0 2 1) (IList [0; 2]%nat)) (PArr2 [[5; 6]; [0; 7]] false)
+    = ([of_dense [5; 0; 6]; of_dense [0; 0; 7]], None).
+Proof.
+  cbn zeta. split; [constructor; [apply Rv_of_dense|constructor; [apply Rv_of_dense|constructor]]|]. split; [cbn; lia|]. split; [repeat constructor|].
+  split; [repeat constructor|]. split; [reflexivity|]. split; [reflexivity|]. vm_compute. reflexivity.
+Qed.
+
+(* ---------- fancy (list, list) indices: element-by-element pairs ---------- *)
+Theorem C09_array_pairs : forall rows M ms ns q isb w, Forall2 Rv rows M ->
+  (Forall2 (fun i j => (i < length rows)%nat /\ (j < length (nth i rows []))%nat) ms ns ->
+     exists sr v', nth_rows rows ms = Ok sr /\ arrF_get rows (XPair (IList ms) (IList ns)) = GDenseF (map2 getc sr ns) /\
+                   np_get_pairs M ms ns = Ok v' /\ Forall2 Qeq (map2 getc sr ns) v') /\
+  (Forall (fun c => length c = w) rows -> Forall (fun i => (i < length rows)%nat) ms -> Forall (fun j => (j < w)%nat) ns ->
+     exists R R', arrF_set false rows false (XPair (IList ms) (IList ns)) (PS q isb) = (R, None) /\
+                  np_set_pairs M ms ns q = Ok R' /\ Forall2 Rv R R' /\ length R = length rows /\
+                  forall k, ~ In k ms -> nth_error R k = nth_error rows k).
+Proof.
+  intros rows M ms ns q isb w H. split.
+  - intros Hp. destruct (get_pairs_refines rows M ms ns H Hp) as (sr & v' & E & E' & R).
+    exists sr, v'. repeat split; auto. now apply arrF_get_pairs_form.
+  - intros. eapply set_pairs_refines; eauto.
+Qed.
+Print Assumptions C09_array_pairs.
+
+Example C09_ex_array_pairs :
+  let rows := [of_dense [1; 0; 2]; of_dense [0; 0; 3]] in
+  Forall2 (fun i j => (i < length rows)%nat /\ (j < length (nth i rows []))%nat) [0; 1]%nat [2; 0]%nat /\
+  Forall (fun c => length c = 3%nat) rows /\ Forall (fun j => (j < 3)%nat) [2; 0]%nat.
+Proof. cbn zeta. split; [repeat constructor; cbn; lia|]. split; repeat constructor; cbn; lia. Qed.
+
+(* ---------- SparseArray compared with a vector / scalar / list: row by row ---------- *)
+Theorem C09_array_cmp_rows : forall m rows p, pkind p -> rows <> [] ->
+  array_bin false (BC m) (map VF rows) p = (do l <- mapM (rowc m p) rows; Ok (OB l)).
+Proof. exact array_cmp_rows. Qed.
+Print Assumptions C09_array_cmp_rows.
+
+Example C09_ex_array_cmp_rows :
+  pkind (PS 0 false) /\ [of_dense [1; 0; -2]] <> [] /\
+  array_bin false (BC CGt) (map VF [of_dense [1; 0; -2]]) (PS 0 false) = Ok (OB [[true; false; false]]).
+Proof. split; [exact I|]. split; [discriminate|]. vm_compute. reflexivity. Qed.
+
+(* ---------- comparisons between logical vectors ARE NumPy's comparisons of boolean arrays ---------- *)
+Theorem C09_lv_cmp_refines : forall c a b, (length a = 1%nat -> b <> []) -> lv_cmp_sparse c a b = np_bcmp c a b.
+Proof. exact lv_cmp_refines. Qed.
+Print Assumptions C09_lv_cmp_refines.
+Example C09_ex_lv_cmp : (length [true; false] = 1%nat -> [false; false] <> []) /\ lv_cmp_sparse CGt [true; false] [false; false] = Ok [true; false].
+Proof. split; [discriminate|reflexivity]. Qed.
+
+(* ---------- logical division, operands of the same size: wherever NumPy returns, the kernel returns the dividend ---------- *)
+Theorem C09_logic_div_same_ok : forall a b r, length a = length b -> np_logic LDiv a b = Ok r ->
+  lv_isparse LDiv a b = Ok a /\ r = a.
+Proof. exact logic_div_same_ok. Qed.
+Print Assumptions C09_logic_div_same_ok.
+Example C09_ex_logic_div : length [true; false] = length [true; true] /\ np_logic LDiv [true; false] [true; true] = Ok [true; false].
+Proof. split; reflexivity. Qed.
+
+(* ---------- all histories over the enlarged fragment fop2: fop plus, on float SparseArrays, the reductions with
+   axis None / 0 / 1 and keepdims, a[m, n] = scalar / 1-d / 2-d values, a[i, j], a[i, cols], a[rows, j], a[k], a[[k...]], a[mask], the six
+   comparisons with a vector / scalar / list operand, neg, abs, copy, clear; on float vectors / and /= with operands
+   that hold no zero; on logical vectors the six comparisons, ~, reads with every index kind, any / all / sum.  np_step2 = np_step extended by NumPy's
+   semantics of these operations *)
+Theorem C09_history_refines_arrays : forall ops s d, sim s d -> frun2 s ops ->
+  sim (fst (run false s ops)) (np_run2 d ops) /\ Forall2 orel (snd (run false s ops)) (np_outs2 d ops).
+Proof. exact history_refines_arrays. Qed.
+Print Assumptions C09_history_refines_arrays.
+Theorem C09_history_dense_arrays : forall ops s, store_wf s -> frun2 s ops ->
+  sim (fst (run false s ops)) (np_run2 (abs_store s) ops) /\ Forall2 orel (snd (run false s ops)) (np_outs2 (abs_store s) ops).
+Proof. exact history_dense_arrays. Qed.
+Print Assumptions C09_history_dense_arrays.
+Definition exOps4 : list xop :=
+  [XOp (ORed RMax 3 None true); XOp (ORed RSum 3 (Some 0%nat) false); XASet 3 (XPair (IInt 0) (ISlice 0 2 1)) (AArr [5; 6]);
+   XAGet 3 (XPair (IInt 1) (IInt 2)); XOp (OBin (BC CGt) 3 (AScal 0)); XOp (ONeg 3);
+   XASet 3 (XPair (ISlice 0 2 1) (IInt 1)) (AScal 9); XAGet 3 (XPair (ISlice 0 2 1) (IInt 1)); XOp (OBin (BA Add) 0 (AObj 1));
+   XOp (OBin (BA Div) 0 (AScal 3)); XOp (OIBin (BA Div) 1 (AArr [2; 4; 8]));
+   XOp (OBin (BC CLt) 4 (AObj 5)); XOp (OInvert 4); XOp (OGet 4 (IList [0; 2]%nat)); XOp (ORed RSum 4 None true)].
+Example C09_ex_frun2 : frun2 exS exOps4.
+Proof.
+  unfold exOps4.
+  eapply frun2_cons. { eapply F2_red; [vm_compute; reflexivity | discriminate | repeat constructor; discriminate | auto]. }
+  vm_compute fst.
+  eapply frun2_cons. { eapply F2_red; [vm_compute; reflexivity | discriminate | repeat constructor; discriminate | auto]. }
+  vm_compute fst.
+  eapply frun2_cons.
+  { eapply (F2_set_values _ 3 (IInt 0) (ISlice 0 2 1) [5; 6] _ 3);
+      [vm_compute; reflexivity | reflexivity | reflexivity | cbn; lia | repeat constructor | cbn; lia | reflexivity | cbn; lia]. }
+  vm_compute fst.
+  eapply frun2_cons. { eapply F2_get_elem; [vm_compute; reflexivity | cbn; lia | cbn; lia]. }
+  vm_compute fst.
+  eapply frun2_cons. { eapply F2_cmp; [vm_compute; reflexivity | discriminate | repeat constructor]. }
+  vm_compute fst.
+  eapply frun2_cons. { eapply (F2_unary _ _ 3%nat); [vm_compute; reflexivity | left; reflexivity]. }
+  vm_compute fst.
+  eapply frun2_cons.
+  { eapply F2_set_scalar; [vm_compute; reflexivity | reflexivity | cbn; lia | repeat constructor; cbn; lia]. }
+  vm_compute fst.
+  eapply frun2_cons. { eapply F2_get_col; [vm_compute; reflexivity | reflexivity | cbn; lia | repeat constructor; cbn; lia]. }
+  vm_compute fst.
+  eapply frun2_cons.
+  { apply F2_old. eapply F_bin; [discriminate | vm_compute; reflexivity |]. cbn. repeat eexists; try (vm_compute; reflexivity); discriminate. }
+  vm_compute fst.
+  eapply frun2_cons. { eapply F2_div; [vm_compute; reflexivity | exact I | cbn; lra]. }
+  vm_compute fst.
+  eapply frun2_cons.
+  { eapply F2_idiv; [vm_compute; reflexivity | cbn; discriminate | cbn; repeat constructor; lra |].
+    intros p Hp. vm_compute in Hp. inversion Hp; subst. reflexivity. }
+  vm_compute fst.
+  eapply frun2_cons. { eapply F2_lcmp; [vm_compute; reflexivity | vm_compute; reflexivity | discriminate]. }
+  vm_compute fst.
+  eapply frun2_cons. { eapply F2_linvert; vm_compute; reflexivity. }
+  vm_compute fst.
+  eapply frun2_cons. { eapply F2_lget; [vm_compute; reflexivity | repeat constructor; cbn; lia]. }
+  vm_compute fst.
+  eapply frun2_cons. { eapply F2_lred; [vm_compute; reflexivity | auto | auto]. }
+  apply frun2_nil.
 Qed.
